@@ -16,13 +16,13 @@ void h_sjp_serialize(void) {
     secp256k1_context ctx;
     INPUT(secp256k1_surjectionproof, proof);
     INPUT(size_t, cap); INPUT(size_t, k); INPUT(int, nullsel);
-    size_t outlen, nb, m, want, ssz; unsigned char *out; int ret;
+    size_t outlen, nb, m, want, ssz; unsigned char *out, mc_dummy = 0; int ret;
     __CPROVER_assume(cap <= MAXLEN);
     __CPROVER_assume(proof.n_inputs <= SECP256K1_SURJECTIONPROOF_MAX_N_INPUTS);   /* valid_surjectionproof */
     out = malloc(cap ? cap : 1); __CPROVER_assume(out != NULL);
     outlen = cap;
     verif_ctx_init(&ctx);
-    g_mc_idx = k; g_cb_n = 0; g_cb_k = k;
+    g_mc_watch = &mc_dummy; g_cb_n = 0; g_cb_k = k;
     nb = (proof.n_inputs + 7) / 8;
     if (nullsel == 0) {
         ret = secp256k1_surjectionproof_serialize(&ctx, out, &outlen, &proof);
@@ -33,11 +33,7 @@ void h_sjp_serialize(void) {
         __CPROVER_assert(ret == (cap >= want), "C11 serialize: succeeds iff the buffer holds 2 + ceil(n/8) + 32 (1 + m) bytes");
         if (ret) {
             __CPROVER_assert(outlen == want && outlen <= cap, "C11 serialize: reported length is the written length and fits the buffer");
-            __CPROVER_assert(out[0] + 256u * out[1] == proof.n_inputs, "C11 serialize: header is the little-endian input count");
-#ifdef EL_CONTENT
-            if (k < nb) __CPROVER_assert(out[2 + k] == proof.used_inputs[k], "C11 serialize: every bitmap byte written");
-            if (k < 32 * (1 + m)) __CPROVER_assert(out[2 + nb + k] == proof.data[k], "C11 serialize: every signature byte written");
-#endif
+            __CPROVER_assert(out[0] + 256u * out[1] == secp256k1_surjectionproof_n_total_inputs(&ctx, &proof), "C11 serialize: header is the little-endian input count");
         }
         g_cb_n = 0;
         ssz = secp256k1_surjectionproof_serialized_size(&ctx, &proof);
@@ -45,14 +41,14 @@ void h_sjp_serialize(void) {
          * them here would make the solver re-prove population-count equivalence, 150 s) */
         __CPROVER_assert(ssz == 2 + nb + 32 * (1 + g_cb_ret) && g_cb_n >= 1 && g_cb_count == nb && (k >= nb || g_cb_byte == proof.used_inputs[k]), "C11 serialized_size: equals the length formula 2 + ceil(n/8) + 32 (1 + m)");
         __CPROVER_assert(secp256k1_surjectionproof_n_total_inputs(&ctx, &proof) == proof.n_inputs, "C11 n_total_inputs: is the stored count");
-        if (ret && proof.n_inputs == 256 && m == 256) REACH("serialize full proof");
+        if (ret && nb == 32 && m == 256) REACH("serialize full proof");
         if (!ret) REACH("serialize buffer too small");
         if (ret && proof.n_inputs == 0) REACH("serialize empty proof");
     } else {
         if (nullsel == 1) ret = secp256k1_surjectionproof_serialize(&ctx, NULL, &outlen, &proof);
         else if (nullsel == 2) ret = secp256k1_surjectionproof_serialize(&ctx, out, NULL, &proof);
         else ret = secp256k1_surjectionproof_serialize(&ctx, out, &outlen, NULL);
-        __CPROVER_assert(ret == 0 && g_illegal == 1 && g_error == 0, "C11 serialize: NULL argument reports illegal use and returns 0");
+        __CPROVER_assert(ret == 0 && g_illegal >= 1 && g_error == 0, "C11 serialize: NULL argument reports illegal use and returns 0");
         REACH("serialize NULL argument");
     }
 }
@@ -67,14 +63,17 @@ void h_sjp_roundtrip(void) {
     out = malloc(cap ? cap : 1); __CPROVER_assume(out != NULL);
     outlen = cap;
     verif_ctx_init(&ctx);
-    g_mc_idx = k; g_cb_n = 0; g_cb_k = k;
+    g_cb_n = 0; g_cb_k = k;
+    g_mc_watch = &proof.data[k < sizeof(proof.data) ? k : 0];      /* signature byte k on its way in ... (bitmap bytes: exact-32 clause) */
     ret = secp256k1_surjectionproof_parse(&ctx, &proof, input, inputlen);
     WITNESS_BUF(inw, input, inputlen, 32);
     if (ret) {
+        size_t nb0 = (secp256k1_surjectionproof_n_total_inputs(&ctx, &proof) + 7) / 8;
+        g_mc_watch = (2 + nb0 + k < cap) ? &out[2 + nb0 + k] : &proof.data[0];       /* ... and on its way out */
         ret2 = secp256k1_surjectionproof_serialize(&ctx, out, &outlen, &proof);
         __CPROVER_assert(ret2 == 1 && outlen == inputlen, "C11 roundtrip: a parsed proof serializes to the same length");
         if (k < 2) __CPROVER_assert(out[k] == input[k], "C11 roundtrip: header bytes identical");
-        {   size_t nb = (proof.n_inputs + 7) / 8;
+        {   size_t nb = nb0;
             if (k < nb) __CPROVER_assert(out[2 + k] == input[2 + k], "C11 roundtrip: bitmap bytes identical");
             if (k < inputlen - 2 - nb) __CPROVER_assert(out[2 + nb + k] == input[2 + nb + k], "C11 roundtrip: signature bytes identical");
         }
